@@ -180,6 +180,10 @@ fn main() {
         print!("{}", pgen::generate(args[2].parse().unwrap(), args.get(3).and_then(|x| x.parse().ok()).unwrap_or(12)));
         return;
     }
+    if args[1] == "shadow" {
+        print!("{}", c15::shadow_program(args[2].parse().unwrap()));
+        return;
+    }
     if args[1] == "probe" {
         probe::main(&args[2..]);
         return;
